@@ -37,7 +37,8 @@ WalkRange ==
    Range(I(0), I(1), R(1, 10), 3),
    \* decimal steps: the count is floor((b - a) / step) in exact arithmetic
    Range(I(0), R(3, 10), R(1, 10), 0), Range(I(0), R(7, 10), R(1, 10), 0), Range(I(0), R(6, 5), R(2, 5), 1),
-   Range(I(1), I(2), R(1, 5), 0), Range(I(0), R(9, 10), R(3, 10), 0), Range(I(0), R(1, 2), R(1, 5), 0)}
+   Range(I(1), I(2), R(1, 5), 0), Range(I(0), R(9, 10), R(3, 10), 0), Range(I(0), R(1, 2), R(1, 5), 0),
+   Range(R(37, 10), R(9, 2), R(4, 5), 0), Range(I(33), R(167, 5), R(1, 10), 1)}
 WalkFactor ==
   {Factor(n, I(10), I(10), I(0), 1) : n \in {0, 1, 3}}
   \cup {Factor(n, b, b, I(0), 2) : n \in {0, 2, 4}, b \in {I(2), R(1, 2), I(3)}}
